@@ -98,19 +98,20 @@ type lib struct {
 }
 
 type G struct {
-	r       *core.Rng
-	w       weights
-	pkg     string // current package name ("" = main)
-	structs []*Struct
-	funcs   []*Func
-	globals []*Var
-	libs    []*lib
-	scope   []*Var
-	marks   []int
-	sb      *strings.Builder
-	ind     int
-	imports map[string]bool
-	uid     int
+	r          *core.Rng
+	fieldFuncs map[string]bool // field-pool names taken by functions of the main package
+	w          weights
+	pkg        string // current package name ("" = main)
+	structs    []*Struct
+	funcs      []*Func
+	globals    []*Var
+	libs       []*lib
+	scope      []*Var
+	marks      []int
+	sb         *strings.Builder
+	ind        int
+	imports    map[string]bool
+	uid        int
 
 	loopDepth   int
 	inMapRange  bool
